@@ -122,6 +122,31 @@ fn owning_adversarial<const N: usize, const B: usize>(ctx: &mut Ctx, flags: u8, 
     ledger_line(ctx);
 }
 
+/// every id of the event queue as the FIRST completion a fresh driver sees (all 32 buffers must really be with the device:
+/// an id whose buffer was never posted would be unshared without having been shared), then ids just outside
+fn input_id_sweep(ctx: &mut Ctx, features: u64) {
+    for id in (0u32..36).chain([0xffffu32, 0x1001f]) {
+        hal::reset();
+        virtio_drivers::verif::set_observer(None);
+        let mut ts = TState::new(DeviceType::Input, features, 2, 32);
+        ts.config = vec![0u8; 256];
+        let (t, st) = ModelTransport::new(ts);
+        let mut input = match catch_unwind(AssertUnwindSafe(move || VirtIOInput::<LedgerHal, ModelTransport>::new(t))) { Ok(Ok(i)) => i, _ => return };
+        let qi = st.borrow().queues[0];
+        hal::dev_write_u32(qi.dev + 4, id).unwrap();
+        hal::dev_write_u32(qi.dev + 8, 8).unwrap();
+        hal::dev_write_u16(qi.dev + 2, 1).unwrap();
+        for _ in 0..2 {
+            let r = { let input = &mut input; catch_unwind(AssertUnwindSafe(move || input.pop_pending_event().is_some())) };
+            let class = match r { Ok(_) => 0u128, Err(_) => 2 };
+            ctx.tr.line(160, &[class, 1, hal::violations().len() as u128], &[1]);
+            if class == 2 { break; }
+        }
+        let _ = catch_unwind(AssertUnwindSafe(move || drop(input)));
+        ledger_line(ctx);
+    }
+}
+
 fn input_adversarial(ctx: &mut Ctx, features: u64, nops: usize) {
     hal::reset();
     virtio_drivers::verif::set_observer(None);
@@ -134,7 +159,7 @@ fn input_adversarial(ctx: &mut Ctx, features: u64, nops: usize) {
     let mut used: u16 = 0;
     for _ in 0..nops {
         let uslot = (used as usize) & 31;
-        let id: u32 = match ctx.rng.below(4) { 0 => ctx.rng.below(32) as u32, 1 => 32 + ctx.rng.below(8) as u32, 2 => ctx.rng.next() as u32, _ => ctx.rng.below(32) as u32 | 0x20000 };
+        let id: u32 = match ctx.rng.below(8) { 0 => 32 + ctx.rng.below(8) as u32, 1 => ctx.rng.next() as u32, 2 | 3 => ctx.rng.below(32) as u32 | 0x20000, 4 => 31, _ => ctx.rng.below(32) as u32 };
         hal::dev_write_u32(a.dev + 4 + 8 * uslot as u64, id).unwrap();
         hal::dev_write_u32(a.dev + 8 + 8 * uslot as u64, ctx.rng.next() as u32).unwrap();
         used = used.wrapping_add(1 + ctx.rng.below(2) as u16);
@@ -170,5 +195,6 @@ pub fn run(ctx: &mut Ctx) {
     }
     for (i, feats) in [0u64, (1 << 28) | (1 << 29)].iter().enumerate() {
         ctx.tr.scenario(&format!("c07-input-adversarial-{}", i)); input_adversarial(ctx, *feats, n);
+        ctx.tr.scenario(&format!("c07-input-id-sweep-{}", i)); input_id_sweep(ctx, *feats);
     }
 }
